@@ -44,6 +44,12 @@ RULES3 = [
 ]
 
 
+RULES5 = [
+ (r"^(countminsketch:(275|280)#|quotientfilter:318#|hll_serde:)", "G"), (r"^hash_utils:", "A"), (r"^hll_mod:316#", "B"),
+ (r"^(helpers:(37|38|39)#|reservoirsampling:108#|tdigest:421#)", "D"),
+ (r"^(reservoirsampling:128#|tdigest:(494|497)#|cuckoofilter:(469|470)#|quotientfilter:(427|428|431|468|572|585)#|cmsheap:224#|lossycounter:)", "C"),
+ (r"^cuckoofilter:(450|456|513)#", "F"),
+]
 RULES4 = [
  (r"^(cmsheap:224#|lossycounter:|quotientfilter:(427|428|508|572)#|reservoirsampling:(129|155)#|tdigest:497#|helpers:37#)", "C"),
  (r"^cuckoofilter:(446|553)#", "F"), (r"^hash_utils:", "A"), (r"^hll_mod:313#", "B"), (r"^hll_serde:", "G"), (r"^reservoirsampling:113#", "D"),
@@ -51,21 +57,21 @@ RULES4 = [
 
 
 def cat(mid, sweep=1):
-    for rx, c in {1: RULES, 2: RULES2, 3: RULES3, 4: RULES4}[sweep]:
+    for rx, c in {1: RULES, 2: RULES2, 3: RULES3, 4: RULES4, 5: RULES5}[sweep]:
         if re.match(rx, mid):
             return c
     return None
 
 s1 = collections.Counter()
-for d in ("/tmp/mu", "/tmp/mu2", "/tmp/mu3", "/tmp/mu4"):
+for d in ("/tmp/mu", "/tmp/mu2", "/tmp/mu3", "/tmp/mu4", "/tmp/mu5"):
     for f in glob.glob(d + "/results/stage1/*.json"):
         s1[json.load(open(f))["status"]] += 1
 rows = []
-for f in sorted(glob.glob("/tmp/mu/results/stage2/*.json")) + sorted(glob.glob("/tmp/mu2/results/stage2/*.json")) + sorted(glob.glob("/tmp/mu3/results/stage2/*.json")) + sorted(glob.glob("/tmp/mu4/results/stage2/*.json")):
-    sweep = 4 if f.startswith("/tmp/mu4") else 3 if f.startswith("/tmp/mu3") else 2 if f.startswith("/tmp/mu2") else 1
+for f in sorted(glob.glob("/tmp/mu/results/stage2/*.json")) + sorted(glob.glob("/tmp/mu2/results/stage2/*.json")) + sorted(glob.glob("/tmp/mu3/results/stage2/*.json")) + sorted(glob.glob("/tmp/mu4/results/stage2/*.json")) + sorted(glob.glob("/tmp/mu5/results/stage2/*.json")):
+    sweep = 5 if f.startswith("/tmp/mu5") else 4 if f.startswith("/tmp/mu4") else 3 if f.startswith("/tmp/mu3") else 2 if f.startswith("/tmp/mu2") else 1
     r = json.load(open(f))
     if sweep > 1:
-        r["id"] = "bcd"[sweep - 2] + ":" + r["id"]
+        r["id"] = "bcdd"[sweep - 2] + ":" + r["id"]
     src = open("/repo/" + r["file"]).read().split("\n")[r["line"] - 1].strip()
     classes = sorted({c for ch in r["checks"] for c in ch["classes"]})
     row = {"id": r["id"], "file": r["file"], "line": r["line"], "old": r["old"], "new": r["new"], "source_line": src,
@@ -92,8 +98,8 @@ with open("/verif/mutation/README.md", "w") as fh:
              "logical and shift operators swapped, integer / float literals +-1 / x2 / /2, `min`/`max`, `wrapping`/`saturating`, `pop_front`/`pop_back` ..., "
              "`true`/`false`, dropped `!` / `.rev()`, narrowing casts `as u16 as usize` / `as u32 as u64`, `..=` -> `..`, deletion of single-line statements; "
              "test modules, assertions, Debug impls and the HLL bias tables excluded; a second sweep, ids prefixed `b:`, works on branches: `if` / `while` conditions forced to true / false / negated, "
-             "conjuncts dropped, relations inverted, `+ 1` / `- 1` dropped or flipped, `self.`/`other.`, `i1`/`i2`, `w`/`d`, `.0`/`.1`, `first`/`last`, `min`/`max` exchanged; a third, ids prefixed `c:`, deletes `return` / `break` / `continue` statements, turns compound assignments into assignments, shortens iterations (`.skip(1)`, range bounds +-1), drops `min` / `max` / `saturating_*` / `abs` / `floor` ... calls and swaps the arguments of two-argument calls; a fourth, ids prefixed `d:`, replaces a local identifier or a field of `self` by another one that occurs within eight lines (a 35 % sample; "
-             "the 144 survivors whose change lies inside a string literal were not run and are listed under G). The sweeps complement the hand-written changes in `seeded/`: "
+             "conjuncts dropped, relations inverted, `+ 1` / `- 1` dropped or flipped, `self.`/`other.`, `i1`/`i2`, `w`/`d`, `.0`/`.1`, `first`/`last`, `min`/`max` exchanged; a third, ids prefixed `c:`, deletes `return` / `break` / `continue` statements, turns compound assignments into assignments, shortens iterations (`.skip(1)`, range bounds +-1), drops `min` / `max` / `saturating_*` / `abs` / `floor` ... calls and swaps the arguments of two-argument calls; a fourth, ids prefixed `d:`, replaces a local identifier or a field of `self` by another one that occurs within eight lines ("
+             "of a first 35 % sample the 144 survivors whose change lies inside a string literal were not run and are listed under G; for the remaining 65 % such mutants were not generated). The sweeps complement the hand-written changes in `seeded/`: "
              "they are systematic where those are imaginative.\n\n")
     fh.write("| stage | count |\n|---|---|\n")
     fh.write("| mutants generated | %d |\n| do not compile | %d |\n| fail the 213 unit tests | %d |\n| unit tests do not terminate | %d |\n| **pass the unit tests** | **%d** |\n"
